@@ -154,13 +154,13 @@ def c04_scenarios(tier):
 # ------------------------------------------------------------------------------------------ C16
 
 def c16_scenarios(tier):
-    sizes = [2, 3, 4, 5, 8, 13, 21, 34, 48] if tier == "quick" else list(range(2, 49))
+    sizes = [2, 3, 4, 5, 8, 13, 21, 34, 48, 65] if tier == "quick" else list(range(2, 49)) + [64, 65, 100, 129]
     positions = ["only", "first", "middle", "last"]
     out = []
     for n in sizes:
         for pos in positions:
             for ncmd in (1, 2):
-                if tier == "quick" and ncmd == 2 and n not in (2, 5, 21):
+                if (tier == "quick" and ncmd == 2 and n not in (2, 5, 21)) or (n > 48 and (ncmd == 2 or pos not in ("only", "middle"))):
                     continue
                 out.append(("c16", {"n": n, "pos": pos, "ncmd": ncmd}, {}))
     return out
